@@ -37,6 +37,7 @@ class Evaluator(CallMixin, StmtMixin):
         self.prog = run.prog
         self.U = run.U
         self.frames: List[Frame] = []
+        self.yield_handlers: List[Any] = []
 
     # ------------------------------------------------------------------ helpers
     @property
@@ -235,6 +236,35 @@ class Evaluator(CallMixin, StmtMixin):
     def e_Constant(self, e: ast.Constant) -> Any:
         return e.value
 
+    # ---- generators: `yield v` hands v to whoever is consuming the generator right now -------------------
+    def _deliver(self, v: Any, node: ast.AST) -> None:
+        if not self.yield_handlers:
+            raise self.unmodelled("yield outside a modelled consumer", node)
+        h = self.yield_handlers.pop()
+        try:
+            h(v)
+        finally:
+            self.yield_handlers.append(h)
+
+    def e_Yield(self, e: ast.Yield) -> Any:
+        self._deliver(self.eval(e.value) if e.value is not None else None, e)
+        return None
+
+    def e_YieldFrom(self, e: ast.YieldFrom) -> Any:
+        from .values import SGen
+        x = self.eval(e.value)
+        if isinstance(x, SGen):
+            if not self.yield_handlers:
+                raise self.unmodelled("yield from outside a modelled consumer", e)
+            self.run_generator(x, self.yield_handlers[-1], e)
+            return None
+        items = self.concrete_items(x)
+        if items is None:
+            raise self.unmodelled("yield from a symbolic iterable", e)
+        for i in items:
+            self._deliver(i, e)
+        return None
+
     def e_Name(self, e: ast.Name) -> Any:
         return self.lookup(e.id, e)
 
@@ -404,8 +434,15 @@ class Evaluator(CallMixin, StmtMixin):
         """`x: list[T]` / `Optional[list[T]]` -> kinds of T."""
         pa = self._param_annotation_for_attr(ci, attr)
         for c in self.prog.mro(ci):
-            if (isinstance(c, ClassInfo) and attr in c.annotations) or (pa is not None and c is ci):
-                ann = c.annotations[attr] if isinstance(c, ClassInfo) and attr in c.annotations else pa[0]  # type: ignore[index]
+            own = None
+            if isinstance(c, ClassInfo) and attr not in c.annotations:
+                for fn in c.methods.values():
+                    for n in ast.walk(fn):
+                        if isinstance(n, ast.AnnAssign) and isinstance(n.target, ast.Attribute) and n.target.attr == attr \
+                                and isinstance(n.target.value, ast.Name) and n.target.value.id == "self":
+                            own = n.annotation       # self.x: list[T] = ...
+            if (isinstance(c, ClassInfo) and attr in c.annotations) or own is not None or (pa is not None and c is ci):
+                ann = c.annotations[attr] if isinstance(c, ClassInfo) and attr in c.annotations else own if own is not None else pa[0]  # type: ignore[index]
                 if isinstance(ann, ast.Constant) and isinstance(ann.value, str):
                     try:
                         ann = ast.parse(ann.value, mode="eval").body
@@ -700,8 +737,20 @@ class Evaluator(CallMixin, StmtMixin):
                 return base[idx]
             except Exception:
                 self.raise_exc("IndexError" if not isinstance(base, dict) else "KeyError", node)
+        if isinstance(base, (list, tuple)) and isinstance(idx, SInt) and len(base) >= 2 and all(isinstance(v, str) for v in base) \
+                and base[0] == "" and base[1] != "" and all(base[k] == base[1] * k for k in range(len(base))):
+            # a table of powers: TABLE[i] == unit * i for every valid i (a bad index raises IndexError, another behaviour altogether)
+            return SStr([Frag("REP", base[1], idx)])
         if isinstance(base, (dict, list, tuple)) and isinstance(idx, Sym):
             vals = list(base.values()) if isinstance(base, dict) else list(base)
+            if vals and all(isinstance(v, str) for v in vals):
+                # one of several constant strings, selected by a symbolic index: a plain str whose content is not known
+                mk0 = ("constitem", id(base), _K(idx))
+                if mk0 not in self.run.elem_memo:
+                    o0 = SObj(f"const[{short(idx)}]", {"STR"}, origin="new")
+                    o0.meta["origin"] = "UNKNOWN"
+                    self.run.elem_memo[mk0] = o0
+                return self.run.elem_memo[mk0]
             ks = {kinds_of_pyvalue(v) for v in vals if not isinstance(v, Sym)} or ALL_KINDS
             mk = ("constitem", id(base), _K(idx))
             if mk not in self.run.elem_memo:
@@ -1315,10 +1364,36 @@ class Evaluator(CallMixin, StmtMixin):
         return None
 
     def comprehension(self, e: ast.AST, elt: ast.expr, gens: List[ast.comprehension], pytype: str) -> Any:
-        if len(gens) != 1:
-            raise self.unmodelled("comprehension with several generators", e)
+        if len(gens) > 1:
+            # outer generators over concrete iterables are unrolled; each inner comprehension contributes its items
+            g0 = gens[0]
+            it0 = self.eval(g0.iter)
+            items0 = self.concrete_items(it0)
+            if items0 is None:
+                raise self.unmodelled("comprehension with several generators over a symbolic outer iterable", e)
+            saved0 = dict(self.frame.env)
+            acc: List[Any] = []
+            try:
+                for x in items0:
+                    self.bind_target(g0.target, x, e)
+                    if not all(self.run.truth(self.eval(c), c) for c in g0.ifs):
+                        continue
+                    sub = self.comprehension(e, elt, gens[1:], pytype)
+                    if isinstance(sub, SList) and sub.mode == "concrete":
+                        acc.extend(sub.items)
+                    else:
+                        acc.append(SSplat(sub))
+            finally:
+                self.frame.env.clear()
+                self.frame.env.update(saved0)
+            l0 = SList("concrete", acc)
+            l0.pytype = pytype
+            return l0
         g = gens[0]
         it = self.eval(g.iter)
+        from .values import SGen
+        if isinstance(it, SGen):
+            it = self.materialise(it, e)
         items = self.concrete_items(it)
         saved = dict(self.frame.env)
         try:
@@ -1498,6 +1573,10 @@ class Evaluator(CallMixin, StmtMixin):
                     o = SObj(f"{_nm(value)}[{i}]", ALL_KINDS, origin=_origin(value))
                     o.meta["component_of"] = (value, i)
                     items.append(o)
+            if items is None and isinstance(value, SList) and value.mode in ("view", "carried", "map") \
+                    and not any(isinstance(t, ast.Starred) for t in target.elts):
+                # (a, b) = <symbolic list>: the components are its elements 0..n-1 (a length mismatch raises ValueError in Python)
+                items = [self.list_item(value, i, node or target) for i in range(len(target.elts))]
             if items is None or len(items) != len(target.elts):
                 raise self.unmodelled("tuple unpacking of symbolic value", node or target)
             for t, v in zip(target.elts, items):
